@@ -136,7 +136,11 @@ instance (hA hM : Hold) (s : List Act) : Decidable (WF hA hM s) := by unfold WF;
 
 def Th.start (script : List Act) : Th := { hA := .none, hM := .none, script := script }
 
-/-! ### lock scripts of the `ds.Set` methods (after the fixes)
+/-! ### lock scripts of the `ds.Set` and `OrderedMap` methods (after the fixes)
+
+Every method of `orderedmap.OrderedMap` has a script: `Head`/`Tail`/`Has`/`Get`/`Size`/`IsEmpty` = `.reader 1`;
+`ForEach`/`ForEachReverse` over a chain of n elements = `.reader (n + 1)` (the lock is released around every
+consumer call); `Set` = `.mapSet`; `Delete` = `.mapDelete found`; `Clear` = `.clear`; `Clone` = `.clone n`.
 
 `omSet` = `OrderedMap.Set`, `omDelete found` = `OrderedMap.Delete` (its unlocked-section `Get` first;
 `found = false` is the early return), `omRead` = `Has`/`Get`/`Size`/one `ForEach` step. -/
@@ -146,6 +150,17 @@ def omRead : List Act := [.rlock .M, .read, .runlock .M]
 def omDelete (found : Bool) : List Act :=
   omRead ++ (if found then [.req .M, .acq .M, .read, .write, .unlock .M] else [])
 def omClear : List Act := [.req .M, .acq .M, .write, .unlock .M]
+
+def rep (n : Nat) (l : List Act) : List Act := (List.replicate n l).flatten
+
+/-- `OrderedMap.Clone`: one `RLock` held over the whole copy loop; the loop reads the chain directly
+(`currentEntry.next`) and calls `Set` on the *new*, still private map (its lock is uncontended and not
+modelled). -/
+def omClone (n : Nat) : List Act := [.rlock .M] ++ rep n [.read] ++ [.runlock .M]
+
+/-- A `Clone` that iterates through `o.ForEach` while still holding the read lock: every step takes
+`mutex.RLock` again. -/
+def cloneReentrant (n : Nat) : List Act := [.rlock .M] ++ rep n omRead ++ [.runlock .M]
 
 /-- a method call with the data-dependent choices it makes (which `Delete`s find their key) -/
 inductive Call
@@ -157,9 +172,10 @@ inductive Call
   | replace (prev : Nat) (n : Nat)         -- ToSlice (prev+1 reads), Clear, n Sets, prev Has
   | reader (steps : Nat)                   -- Has / Size / ForEach / ToSlice / HasAll ...: only `M.RLock`
   | clear
+  | mapSet                                 -- `OrderedMap.Set` called directly (Decode, NewSet, users of the map)
+  | mapDelete (found : Bool)               -- `OrderedMap.Delete` called directly
+  | clone (n : Nat)                        -- `OrderedMap.Clone` of a map with n entries
 deriving Repr, DecidableEq
-
-def rep (n : Nat) (l : List Act) : List Act := (List.replicate n l).flatten
 
 def methodScript : Call → List Act
   | .add => [.rlock .A] ++ omSet ++ [.runlock .A]
@@ -170,6 +186,9 @@ def methodScript : Call → List Act
   | .replace p n => [.req .A, .acq .A] ++ rep (p + 1) omRead ++ omClear ++ rep n omSet ++ rep p omRead ++ [.unlock .A]
   | .reader n => rep n omRead
   | .clear => omClear
+  | .mapSet => omSet
+  | .mapDelete f => omDelete f
+  | .clone n => omClone n
 
 /-- `DeleteAll` before the fix: the callback called `s.Delete`, which takes `applyMutex.RLock` again. -/
 def deleteAllOld (founds : List Bool) : List Act :=
@@ -413,6 +432,10 @@ def skeletons : List (String × String) := [
   ("OrderedMap.Get", "M.RLock defer:M.RUnlock"),
   ("OrderedMap.Has", "M.RLock defer:M.RUnlock"),
   ("OrderedMap.Size", "M.RLock defer:M.RUnlock"),
+  ("OrderedMap.IsEmpty", "call:Size"),
+  ("OrderedMap.Head", "M.RLock defer:M.RUnlock"),
+  ("OrderedMap.Tail", "M.RLock defer:M.RUnlock"),
+  ("OrderedMap.Clone", "M.RLock defer:M.RUnlock loop{ }"),
   ("OrderedMap.Clear", "M.Lock defer:M.Unlock"),
   ("OrderedMap.ForEach", "M.RLock M.RUnlock loop{ cb M.RLock M.RUnlock }"),
   ("OrderedMap.ForEachReverse", "M.RLock M.RUnlock loop{ cb M.RLock M.RUnlock }")
